@@ -268,3 +268,29 @@ package h2
 //@ requires r != nil && f != nil && r.dest != nil && f.StreamID != 0
 //@ modifies wu(r.dest, 0), wu(r.dest, f.StreamID)
 //@ ensures err == nil ==> wu(r.dest, 0) == old(wu(r.dest, 0)) + f.Length && wu(r.dest, f.StreamID) == old(wu(r.dest, f.StreamID)) + f.Length
+
+// ---- connection preface (L10.4) ----
+
+//@ globalinv len(connectionPreface) == 24 && connectionPreface[0] == 80 && connectionPreface[1] == 82 && connectionPreface[2] == 73 && connectionPreface[3] == 32 && connectionPreface[4] == 42 && connectionPreface[5] == 32 && connectionPreface[6] == 72 && connectionPreface[7] == 84 && connectionPreface[8] == 84 && connectionPreface[9] == 80 && connectionPreface[10] == 47 && connectionPreface[11] == 50 && connectionPreface[12] == 46 && connectionPreface[13] == 48 && connectionPreface[14] == 13 && connectionPreface[15] == 10 && connectionPreface[16] == 13 && connectionPreface[17] == 10 && connectionPreface[18] == 83 && connectionPreface[19] == 77 && connectionPreface[20] == 13 && connectionPreface[21] == 10 && connectionPreface[22] == 13 && connectionPreface[23] == 10
+//@ define isPreface(s seq, b int) bool = s[b] == 80 && s[b+1] == 82 && s[b+2] == 73 && s[b+3] == 32 && s[b+4] == 42 && s[b+5] == 32 && s[b+6] == 72 && s[b+7] == 84 && s[b+8] == 84 && s[b+9] == 80 && s[b+10] == 47 && s[b+11] == 50 && s[b+12] == 46 && s[b+13] == 48 && s[b+14] == 13 && s[b+15] == 10 && s[b+16] == 13 && s[b+17] == 10 && s[b+18] == 83 && s[b+19] == 77 && s[b+20] == 13 && s[b+21] == 10 && s[b+22] == 13 && s[b+23] == 10
+
+// forwardPreface: success means exactly the 24 preface bytes were consumed
+// from the client and written, in order, to the server; and a client stream
+// that starts with the preface is accepted however it is segmented, unless
+// the transport itself fails.
+//@ func forwardPreface
+//@ property C10
+//@ requires server != nil && client != nil && !rdFailed(client) && !wrFailed(server)
+//@ modifies pos(client), rdFailed(client), wlen(server), wdata, wrFailed(server), elems(byte)
+//@ ensures result == nil ==> pos(client) == old(pos(client)) + 24 && isPreface(stream(client), old(pos(client)))
+//@ ensures result == nil ==> wlen(server) == old(wlen(server)) + 24
+//@ ensures result == nil ==> forall i int :: 0 <= i && i < 24 ==> wdata(server, old(wlen(server)) + i) == stream(client)[old(pos(client)) + i]
+//@ ensures isPreface(stream(client), old(pos(client))) && !rdFailed(client) && !wrFailed(server) ==> result == nil
+//@ ensures pos(client) <= old(pos(client)) + 24
+//@ loop 0:
+//@   invariant 0 <= m && m <= 24 && len(preface) == m && !wrFailed(server)
+//@   invariant wlen(server) == old(wlen(server)) + 24 - m
+//@   invariant forall i int :: 0 <= i && i < 24 ==> (i < 24 - m ==> wdata(server, old(wlen(server)) + i) == stream(client)[old(pos(client)) + i])
+//@   invariant forall i int :: 0 <= i && i < 24 ==> (i < m ==> preface[i] == stream(client)[old(pos(client)) + 24 - m + i])
+//@   invariant pos(client) == old(pos(client)) + 24 && isPreface(stream(client), old(pos(client))) && rdFailed(client) == false
+//@   decreases m
